@@ -20,8 +20,11 @@ Theorem c18_consumer_once : forall (P : Type) (is : list (icpt P)) (rs : list (l
 Proof. exact consumer_once. Qed.
 Print Assumptions c18_consumer_once.
 
-(* A panic is an outcome of the interceptor like any other: the stream delivered is the parsed stream, every
-   message carrying what all interceptors (the ones after a panicking one included) made of it. *)
+(* A panic is an outcome of the interceptor like any other - whatever the panic VALUE is (string, error, a runtime.Error
+   from a nil-map write / index out of range / nil dereference, a custom type): the model's interceptor result is just
+   (content, panicked?) and safelyApplyInterceptor's recover is modelled as containing every one of them.  The stream
+   delivered is the parsed stream, every message carrying what all interceptors (the ones after a panicking one
+   included) made of it.  The tie exercises every kind of panic value at every chain position on both paths. *)
 Theorem c18_consumer_panic_contained : forall (P : Type) (is : list (icpt P)) (rs : list (list (msg P))) (fa : bool)
     (scheds : list (list nat)),
   delivered (snd (feed_all P false is fa rs scheds)) = map (final P is) (concat rs).
